@@ -51,7 +51,9 @@ fn confined_op(rng: &mut Rng, o: &str) -> MOp {
 pub fn run(rec: &mut Recorder, w: &mut World, tier: &str, seed: u64) {
     let mut rng = Rng::new(seed);
     let ks = kinds();
-    let k = ks.iter().find(|k| k.name == "domains").unwrap().clone();
+    let mut k = ks.iter().find(|k| k.name == "domains").unwrap().clone();
+    // the tenant column is identified by its position, not by a token called `dom`
+    k.rt[1] = "tenant".into(); k.pt[1] = "tenant".into();
     let m = model_of(&k, E_ALLOW, false, "", false);
     // exhaustive small scope: every history of length <= L over a fixed 10-op alphabet of other-tenant mutations
     let l = if tier == "thorough" { 3 } else { 2 };
